@@ -256,3 +256,33 @@ Theorem C14_carv2_prefix_holding_the_payload_walks_like_the_whole_file :
       = Ok (2, roots, st0', (steps, (e, fin'))).
 Proof. exact c14_prefix_walk_v2_after_payload. Qed.
 Print Assumptions C14_carv2_prefix_holding_the_payload_walks_like_the_whole_file.
+
+(* The same exact statement for a cut INSIDE the data payload of a CARv2 (any padding bytes,
+   characteristics, index offset, trailer): the io.LimitedReader still promises DataSize bytes, the
+   source runs dry earlier.  The walk over the prefix returns exactly the first j steps of the walk over
+   the whole file, then io.EOF iff the cut is on a section boundary, otherwise an error that is not
+   io.EOF.  With C14_carv2_prefix_holding_the_payload_walks_like_the_whole_file every prefix of a CARv2
+   that contains the two headers is covered. *)
+Theorem C14_walk_over_a_carv2_prefix_is_the_prefix_of_the_walk :
+  forall hok hdrdec o seek roots bs w hi lo ioff pad trailer k,
+    hdrdec (enc_header (Some roots) 1) = Some (roots, 1) ->
+    blen (enc_header (Some roots) 1) <= o_maxh o -> blen (enc_header (Some roots) 1) < two63 ->
+    Forall (block_ok (o_maxs o)) bs -> Forall (fun b => cid_stream_ok (fst b)) bs ->
+    (o_trusted o = false -> Forall (hash_good hok) bs) ->
+    hdrdec pragma_body = Some ([], 2) -> 10 <= o_maxh o ->
+    hi < two64 -> lo < two64 -> ioff < two63 ->
+    51 + blen pad < two63 -> blen (enc_payload roots bs) < two63 ->
+    let file := v2_file hi lo ioff pad (enc_payload roots bs) trailer in
+    let base := 51 + blen pad in
+    base + blen (ld (enc_header (Some roots) 1)) <= k -> k <= base + blen (enc_payload roots bs) ->
+    exists j m st_full full e_full fin_full st0 e fin,
+      brp_run hok hdrdec o seek file w = Ok (2, roots, st_full, (full, (e_full, fin_full))) /\
+      (j <= length bs)%nat /\
+      k = base + blen (ld (enc_header (Some roots) 1) ++ enc_sections (firstn j bs)) + m /\
+      (m = 0 \/ exists c d, nth_error bs j = Some (c, d) /\ 0 < m /\ m < blen (enc_section c d)) /\
+      brp_run hok hdrdec o seek (take k file) w = Ok (2, roots, st0, (firstn j full, (e, fin))) /\
+      ((length w <= j)%nat -> e = None) /\
+      ((j < length w)%nat -> m = 0 -> e = Some EEof) /\
+      ((j < length w)%nat -> 0 < m -> exists e', e = Some e' /\ e' <> EEof).
+Proof. exact c14_prefix_walk_v2. Qed.
+Print Assumptions C14_walk_over_a_carv2_prefix_is_the_prefix_of_the_walk.
